@@ -45,3 +45,13 @@ Theorem C10_formatted_line_reads_the_same_partial : forall line indent out next,
   same_reading (trim_left is_blank out) line.
 Proof. exact format_keeps_reading. Qed.
 Print Assumptions C10_formatted_line_reads_the_same_partial.
+
+(* refuted for what the patterns do not capture (known finding C10-blockstart-word-split): the
+   assembler reads ##!>assemblex as the unknown processor "assemblex"; format re-prints it as the
+   block start of "assemble" with argument x *)
+Theorem C10_blockstart_word_split_refuted :
+  process_line $"##!>assemblex" 0 = (Some $"##!> assemble x", 1%nat) /\
+  m_processor_start $"##!>assemblex" = Some ($"assemblex", []) /\
+  m_processor_start $"##!> assemble x" = Some ($"assemble", $"x").
+Proof. exact blockstart_word_split. Qed.
+Print Assumptions C10_blockstart_word_split_refuted.
